@@ -7,6 +7,7 @@ from .. import bits, paths
 from ..core import call_attr, calls_in, const, dotted, is_const, kwarg, norm, slice_parts, text, walk_local
 
 EXPLANATION = [
+    'C08.response-echo: both channel classes answer a Disconnection Request by echoing the request\'s own destination_cid and source_cid (same rule as C09.response-echo): with different CIDs at the two ends the requester still finds the channel that asked, so a failed set-up ends with both ends closed.',
     'C08.poll: the receiver-ready poll carries P=1 (F=0), both bits are forwarded into the S-frame, a frame received with P=1 is answered with F=1, and a frame with F=1 cancels the sender\'s monitor timer and resumes output on every path of _update_ack_seq that does not reject the acknowledgement (also when it acknowledges nothing new): the poll/final handshake closes.',
     'C08.peer-params: the TxWindow / MaxTransmit / MPS the ERTM sender obeys are the ones unpacked from the peer\'s Configure Request (same field order as packed), forwarded by name through the factory and stored under their own names.',
     'C08.ctrl-bits: parse and serialise bit layouts of the I-frame and S-frame '
@@ -518,7 +519,13 @@ def poll_final(ctx):
             'an acknowledgement with F=1 can return with the monitor timer still armed (e.g. when it acknowledges nothing new): output stays blocked although the peer answered the poll', p.loc(upd), stuck[:3])
 
 
+def response_echo_shared(ctx):
+    from . import c09
+    c09.response_echo(ctx, rule='C08.response-echo')
+
+
 RULES = [
+    ('C08.response-echo', response_echo_shared),
     ('C08.poll', poll_final),
     ('C08.peer-params', peer_params),
     ('C08.ctrl-bits', ctrl_bits),
